@@ -644,9 +644,9 @@ def plan_cases(ctx: vlib.Ctx, progs: list[Program], per_prog: int) -> list[Case]
             c = Case(p, ns[j], f"s{ctx.seed}-{pi}-{j}-{rng.randrange(10**6)}", mode)
             c.key = f"{p.name}/n{c.n}/{c.sched}/{mode}"
             # lock-conflict probe: pause > sqlite busy timeout before a later module of a multi-module batch.
-            # Usually a 3 s pause with the busy timeout shortened to 1.5 s; in the thorough tier every 5th case uses the
+            # Usually a 3 s pause with the busy timeout shortened to 1.5 s; in the thorough tier every 8th case uses the
             # real default timeout (5 s) with a 6 s pause.
-            if not ctx.quick and j % 5 == 4:
+            if not ctx.quick and len(cases) % 8 == 7:
                 c.knobs = {"C07_LONG_SLEEP": "6.0"}
             elif c.n >= 2:
                 c.knobs = {"C07_LONG_SLEEP": "3.0", "C07_SQLITE_BUSY_MS": "1500"}
@@ -655,8 +655,8 @@ def plan_cases(ctx: vlib.Ctx, progs: list[Program], per_prog: int) -> list[Case]
 
 
 def stage_S(ctx: vlib.Ctx, work: str) -> list[dict[str, Any]]:
-    nprog = int(os.environ.get("C07_NPROG", ctx.n(8, 60)))
-    per = int(os.environ.get("C07_PER", ctx.n(3, 7)))   # thorough 60 x 7 (x4 runs each) fits 30 min; 60 x 10 with C07_PER=10
+    nprog = int(os.environ.get("C07_NPROG", ctx.n(8, 24)))
+    per = int(os.environ.get("C07_PER", ctx.n(3, 5)))   # thorough 24 x 5 (x4 runs each) fits 25 min at load ~50; larger via C07_NPROG / C07_PER
     progs = [gen_program(ctx.seed, k) for k in range(nprog)]
     runners = {p.name: ProgRunner(p, work) for p in progs}
     par = int(os.environ.get("C07_PAR", "8" if ctx.quick else "7"))
@@ -914,7 +914,7 @@ BLOCKER_KEY = "blocker:nonblocking-diagnostics-dropped"
 
 
 def stage_B(ctx: vlib.Ctx, work: str) -> list[dict[str, Any]]:
-    nb = int(os.environ.get("C07_NBLOCK", ctx.n(2, 12)))
+    nb = int(os.environ.get("C07_NBLOCK", ctx.n(2, 6)))
     traces: list[dict[str, Any]] = []
     stats = {"programs": nb, "runs": 0, "status_2": 0, "full_output_equal": 0, "output_differs": 0}
 
@@ -1031,7 +1031,7 @@ def run(ctx: vlib.Ctx) -> None:
         traces += stage_B(ctx, work)
         stage_C(ctx, traces)
         nontriv = sum(1 for n in ctx.cov.get("S_reference_diagnostic_files", []) if n >= 2)
-        ctx.cov["distinct_nontrivial"] = nontriv * int(os.environ.get("C07_PER", ctx.n(3, 7)))
+        ctx.cov["distinct_nontrivial"] = nontriv * int(os.environ.get("C07_PER", ctx.n(3, 5)))
     finally:
         if not os.environ.get("C07_KEEP"):
             shutil.rmtree(work, ignore_errors=True)
